@@ -12,6 +12,9 @@ CHECKS = {
  "C01": dict(level="exploration", engine="E1+E2", technique="model-based property testing (proptest histories vs reference nested map) + exhaustive deletion-subset enumeration of small multi-level trees",
    text="Generated API histories and every deletion subset of small one-/two-/three-level and mixed trees are executed against jammdb and a reference nested ordered map; every return value, a fresh-reader dump, an independent parse of the file and a reopen are compared after every commit. Exploration: bounded by the generated set reported in the evidence, not a proof.",
    note="Reference model encodes DESIGN.md 1.3; independent parser encodes the pinned file layout; scratch files on tmpfs; x86_64 Linux.", ref="4/C01"),
+ "C03": dict(level="exploration", engine="E1+E2", technique="stateful property testing: generated single-thread interleavings of up to 4 readers with committing / rolling-back writers, every open reader re-dumped and compared with its model snapshot after every step",
+   text="Generated step sequences (open reader, close any reader, writer commit/rollback with update/delete-heavy ops that free and reuse pages, reopen); each reader keeps the model clone from its begin and is re-verified in full after every step; commits are also parsed independently to know which of them reused freed pages.",
+   note="File pre-sized so no commit grows it while a reader is open on the same thread (documented self-deadlock); such cases are discarded and counted.", ref="4/C03"),
  "C05": dict(level="exploration", engine="E1+E2", technique="property-based testing: generated histories (bucket-deletion storms, mixed buckets, C01 grammar) with an independent file parser doing exact page accounting after every commit, cross-checked with DB::check()",
    text="After every commit of every generated history the raw file bytes are parsed by code that shares nothing with jammdb: each page below the high-water mark must be exactly one of header / reachable once (with overflow run) / free-list page / free-list entry; key order, separators, element bounds are checked; DB::check() must agree. Exploration over the generated set reported in the evidence.",
    note="The parser encodes the pinned layout (DESIGN.md 1.1); validated against healthy and corrupted files.", ref="4/C05"),
@@ -24,6 +27,9 @@ CHECKS = {
  "C08": dict(level="exploration", engine="E1", technique="enumerative property testing: all neighbour-derived seek keys and all bound pairs x bound kinds on generated buckets, oracle = sorted-suffix rule / hand-written filter of the model",
    text="For generated buckets (empty to three-level, committed and mid-transaction) every candidate key derived from the present keys is used for seek, and every pair of candidates x {included, excluded, unbounded}^2 for range (exhaustive on small buckets, sampled on large) through tuple and std range types and the to_buckets / to_kv_pairs filters, with repeated next() after exhaustion.",
    note="seek(absent) may land on predecessor or successor (both accepted).", ref="4/C08"),
+ "C10": dict(level="exploration", engine="E1+E2", technique="property testing over seeded long stationary workloads with a metamorphic bound: high-water mark bounded by measured live + dirty pages (independent parser after every commit)",
+   text="Seeded long workloads (fixed-size overwrite, variable-size overwrite/delete, bucket create/delete cycles; with reopen, rollbacks, pinned reader) are run for hundreds to thousands of transactions; after every commit the independent parser measures live pages, dirty pages and the high-water mark; the high-water mark must stay within a bound relative to measured live and dirty pages for every prefix of the run, a pinned reader must keep seeing its snapshot, and growth must stop once it closes.",
+   note="Bounds calibrated on the unchanged tree (plateau ~1.1-1.6x live; a free list that never releases exceeds the bound within ~100 transactions).", ref="4/C10"),
 }
 
 NOT_BUILT_REASON = "check not built yet in this session (design in DESIGN.md section 4); not claimed until it exists and is silent on the unchanged tree"
